@@ -4,6 +4,7 @@ import sys
 
 import common as c
 import c0809_lib as L
+import c09_contexts as X
 
 PID = "C09"
 MANIFEST = {
@@ -128,7 +129,8 @@ def main(argv):
         # ---- correspondence
         validated = L.correspondence(res, h, clir, rng, 250 if quick else 3000, PID, "c09")
         # ---- the property on the implementation
-        progs = L.corpus_programs(PID) + L.gen_programs(rng, 500 if quick else 12000, h=h)
+        progs = (L.corpus_programs(PID) + X.programs(rng, 400 if quick else 20000) +
+                 L.gen_programs(rng, 500 if quick else 12000, h=h))
         cases = L.run_search_inputs(h, clir, progs, cli_every=1 if quick else 2)
         # the generator's bookkeeping against the independent scanners (harness + python)
         scans = L.impl_scan(h, [sc.src for sc in cases])
@@ -181,7 +183,8 @@ def main(argv):
     ncomments = sum(len(sc.case.comments) for sc in cases)
     res.coverage["evaluations"] = checked + res.streams.get("FORMAT", {}).get("lib", 0) * 2
     res.coverage["distinct_nontrivial"] = len(nontrivial)
-    res.coverage["rule"] = ("generated programs (1-5 statements, expression depth <= 4, comments injected at the 20 "
+    res.coverage["rule"] = ("CONTEXT programs (checks/c09_contexts.py: 11 commented containers under each of 31 parent "
+                            "node shapes, and under sampled / all pairs of parents) + generated programs (1-5 statements, expression depth <= 4, comments injected at the 20 "
                             "position classes of checks/c0809_gen.py, 0-5 blank lines) x width sampled in 1..120/default "
                             "x driver (library loop / real blots --format binary); non-trivial = distinct (program, driver) "
                             "pairs with at least one comment that were accepted by the parser")
